@@ -10,14 +10,18 @@ import UralModel.Gen.C19SmallTables
 The two regexes and the screen-name blacklist are the *regenerated* terms of
 `Gen/C19SmallTables.lean`.
 
-`parse_twitter_url` calls itself on legacy "hashbang" urls (`twitter.com/#!/user`): the part of
-the fragment after `^!/?` is glued to `"twitter.com/"` and parsed again.  Python has a finite
-stack: the model takes the number `limit` of nested re-entries that are still available and
-answers `RecursionError` (a value, like every exception here) when it is exceeded.  One step of
-the function — everything but the self-call — is `twitterStep`, a function of the url alone;
-its routing part `twitterRoute` is a function of the path segments and the fragment that
-`safe_urlsplit` returned (so the theorems about it hold for every component tuple, whatever
-`urlsplit` does).
+`parse_twitter_url` routes legacy "hashbang" urls (`twitter.com/#!/user`) by looping
+(twitter.py:83-107, as repaired by "fix: twitter parser routes nested hashbang fragments by
+looping, not recursing"): the part of the fragment after `^!/?` is glued to `"twitter.com/"`
+and the `while True:` body runs again.  One run of the body is `loopBody`, a function of the
+url alone; its routing part `twitterRoute` is a function of the path segments and the fragment
+that `safe_urlsplit` returned (so the theorems about it hold for every component tuple,
+whatever `urlsplit` does).  The loop itself is `runSteps loopBody n url`: at most `n` re-entries,
+after which the value is `Err.nonTermination`.  `parse_twitter_url` gives it `n = #'#' in url`;
+`Props/C19/Small.lean` proves that every re-entry consumes a `#` — so the loop always leaves
+within that budget (`parse_twitter_url_total`: `nonTermination` is unreachable, which IS the
+termination proof of the `while True`) and that a larger budget changes nothing
+(`runSteps_limit_irrelevant`).
 -/
 namespace Ural.Twitter
 open Ural.Py Ural.Py.Re Ural.C19Small Ural.Gen.C19Small
@@ -38,13 +42,14 @@ def normalize_screen_name (username : Str) : Option Str :=
     let username := if startsWith username ['@'] then username.drop 1 else username
     if username = [] then none else some (lower username)
 
-/-- what one activation of `parse_twitter_url` does: return, or call itself on another url -/
+/-- what one run of the loop body of `parse_twitter_url` does: return, or go round again on
+another url -/
 inductive Step where
   | done (r : Option Record)
   | reroute (url : Str)
 deriving DecidableEq, Repr
 
-/-- twitter.py:88-94, the branch `user_screen_name is None` -/
+/-- twitter.py:94-97, the branch `user_screen_name is None` -/
 def listRoute (path : List Str) : Except Err (Option Record) :=
   if path.length = 3 then do
     let p0 ← getIdx path 0
@@ -57,7 +62,7 @@ def listRoute (path : List Str) : Except Err (Option Record) :=
     else pure none
   else pure none
 
-/-- twitter.py:86-106 on `path = pathsplit(parsed.path)` and `parsed.fragment` -/
+/-- twitter.py:89-107 on `path = pathsplit(parsed.path)` and `parsed.fragment` -/
 def twitterRoute (path : List Str) (fragment : Str) : Except Err Step :=
   if path ≠ [] then do
     let p0 ← getIdx path 0
@@ -74,37 +79,34 @@ def twitterRoute (path : List Str) (fragment : Str) : Except Err Step :=
     pure (.reroute ("twitter.com/".toList ++ subAnchored TWITTER_FRAGMENT_ROUTING_RE [] fragment))
   else pure (.done none)
 
-/-- twitter.py:78-106 without the self-call -/
-def twitterStep (url : Str) : Except Err Step :=
-  if !is_twitter_url url then .ok (.done none)
-  else
-    match safe_urlsplit url with
-    | none => .ok (.done none)                       -- except ValueError: return None
-    | some parsed => twitterRoute (pathsplit parsed.path) parsed.fragment
+/-- twitter.py:84-107: one run of the body of the `while True:` loop -/
+def loopBody (url : Str) : Except Err Step :=
+  match safe_urlsplit url with
+  | none => .ok (.done none)                         -- except ValueError: return None
+  | some parsed => twitterRoute (pathsplit parsed.path) parsed.fragment
 
-/-- the self-call of twitter.py:104 is the last thing the function does: running the function
-is "run one activation; return what it returns, or start again on the url it asks for", at
-most `limit` times over (`limit` = nested self-calls the interpreter stack still allows,
-beyond it Python raises `RecursionError`) -/
+/-- a loop `while True: <step>`: run `step`; return what it returns, or start again on the url
+it asks for — at most `limit` times over (beyond: `nonTermination`) -/
 def runSteps (step : Str → Except Err Step) : (limit : Nat) → (url : Str) → Except Err (Option Record)
   | 0, url =>
     match step url with
     | .error e => .error e
     | .ok (.done r) => .ok r
-    | .ok (.reroute _) => .error .recursionError
+    | .ok (.reroute _) => .error .nonTermination
   | limit' + 1, url =>
     match step url with
     | .error e => .error e
     | .ok (.done r) => .ok r
     | .ok (.reroute url') => runSteps step limit' url'
 
-/-- twitter.py:63-106 -/
-def parse_twitter_url (limit : Nat) (url : Str) : Except Err (Option Record) :=
-  runSteps twitterStep limit url
+/-- twitter.py:63-107 -/
+def parse_twitter_url (url : Str) : Except Err (Option Record) :=
+  if !is_twitter_url url then .ok none
+  else runSteps loopBody (url.count '#') url
 
 /-- twitter.py:109-129 -/
-def extract_screen_name_from_twitter_url (limit : Nat) (url : Str) : Except Err (Option Str) :=
-  match parse_twitter_url limit url with
+def extract_screen_name_from_twitter_url (url : Str) : Except Err (Option Str) :=
+  match parse_twitter_url url with
   | .error e => .error e
   | .ok (some (.user n)) => .ok (some n)
   | .ok (some (.tweet n _)) => .ok (some n)
